@@ -329,3 +329,14 @@ Theorem C15_renaming_flow_copies :
     = match stratify_flow s g with Ok fl => Ok (map (rename_flow f) fl) | Err e => Err e end.
 Proof. exact renaming_commutes_with_flow_copies. Qed.
 Print Assumptions C15_renaming_flow_copies.
+
+(* ... through the API, for ordinary and strain stratifications (the library sorts age strata itself): the same
+   stratification with its strata listed in another order gives a model whose compartments are a permutation *)
+Theorem C15_strata_order_api :
+  forall m s s' m1 m1',
+    s_kind s <> SAge -> s_kind s' <> SAge ->
+    s_name s' = s_name s -> s_comps s' = s_comps s -> Permutation (s_strata s) (s_strata s') ->
+    stratify_with m s = Ok m1 -> stratify_with m s' = Ok m1' ->
+    Permutation (m_comps m1) (m_comps m1').
+Proof. exact api_strata_order. Qed.
+Print Assumptions C15_strata_order_api.
